@@ -35,6 +35,7 @@ struct PhotonSourceSpectrumMaskFactory {
 
 #define private public
 #include "ChargeTransferRates.hpp"
+#include "FixedValueCrossSections.hpp"
 #include "HeliumLymanContinuumSpectrum.hpp"
 #include "HeliumTwoPhotonContinuumSpectrum.hpp"
 #include "HydrogenLymanContinuumSpectrum.hpp"
@@ -189,6 +190,27 @@ int main(int argc, char **argv) {
           bad << " cross-section-not-finite-nonnegative";
         if (threshold.count(ion) && e < threshold[ion] && v != 0.)
           bad << " cross-section-nonzero-below-threshold";
+      }
+    } else if (op == "fxs" && w.size() == 17) {
+      // FixedValueCrossSections constructed with the 14 given values (argument order of the
+      // constructor), queried through the CrossSections interface
+      const int ion = (int)u64(w[1]);
+      if (ion < 0 || ion >= NUMBER_OF_IONNAMES) {
+        std::cout << "fxs unknown-ion\n";
+      } else {
+        double v[14];
+        bool allfinite = true;
+        for (int i = 0; i < 14; ++i) {
+          v[i] = dbl(w[3 + i]);
+          allfinite = allfinite && finite_nonneg(v[i]);
+        }
+        FixedValueCrossSections fx(v[0], v[1], v[2], v[3], v[4], v[5], v[6], v[7], v[8], v[9],
+                                   v[10], v[11], v[12], v[13]);
+        const CrossSections &cs = fx;
+        const double r = cs.get_cross_section(ion, dbl(w[2]));
+        std::cout << "fxs " << showF(r) << "\n";
+        if (allfinite && !finite_nonneg(r))
+          bad << " fixed-cross-section-not-finite-nonnegative";
       }
     } else if (op == "recv" && w.size() == 4) {
       const double T = dbl(w[3]);
@@ -365,6 +387,16 @@ int main(int argc, char **argv) {
             std::cout << " " << bits_of(v);
           std::cout << "\n";
         }
+      }
+    } else if (op == "gettab" && w.size() == 2) {
+      auto it = tb.t1.find(w[1]);
+      if (it == tb.t1.end())
+        std::cout << "gettab 0 \n";
+      else {
+        std::cout << "gettab " << it->second.size();
+        for (double v : it->second)
+          std::cout << " " << showF(v);
+        std::cout << "\n";
       }
     } else if (op == "tab" && w.size() >= 3) {
       const uint64_t n = u64(w[2]);
